@@ -387,6 +387,7 @@ def summarize_attempts(ctx):
                 'uend': None if a.get('uend') is None else bdigest(a['uend']),
                 'uend_arr': None if a.get('uend') is None else np.array(a['uend']),
                 'u0_post': None if a.get('u0_post') is None else bdigest(a['u0_post']),
+                'u0_post_arr': None if a.get('u0_post') is None else np.array(a['u0_post']),
                 'residual': a.get('residual'),
                 'e_est': a.get('e_est'),
                 'dt_new': a.get('dt_new'),
@@ -488,6 +489,7 @@ def run_mpi(sc, res, log):
         finally:
             out['attempts'] = summarize_attempts(ctx)
             out['u0_modified'] = not np.array_equal(u0_before, np.array(u0))
+            out['u0_before'] = u0_before
             out['time_rank'], out['node_rank'] = t, s
             out['nblocks'] = len(ctx.blocks)
             out['cc'] = ctx.cc
